@@ -201,7 +201,7 @@ fn line_gen(e: &mut Ent) -> String {
             let a = e.pick(&[0x000100u32, 0x200000, 0xffffea, 0x600000, 0x1000000, 0xffffffff]);
             format!("u8:{:x}:{:x}", a, e.u8())
         }
-        14 => format!("ioport:{}:{:x}", e.pick(&["0", "c", "10", "ff", "b0"]), e.u8()),
+        14 => format!("ioport:{}:{:x}", e.pick(&["0", "c", "10", "ff", "b0", "101", "1001", "10a", "100000001", "001", "0a"]), e.u8()),
         _ => {
             // malformed variants
             let a = e.pick(&POOL);
@@ -665,6 +665,35 @@ pub fn judge_tcp_lines(lines: &[String], chunk_seed: u32) -> Result<(), String> 
             }
         }
     };
+    // Handshake: make sure the peer is *this* case's emulator before anything is judged. Concurrently running check
+    // processes (and anything else on the machine) use loopback ports too; a connection that ends up in the backlog
+    // of a listener that already has its client, or at somebody else's listener, must be an inconclusive rig
+    // failure, not a 120 s wait. The guest echoes the flag byte to port B: one `u8:` line, one `ioport:b:` message.
+    {
+        let _ = stream.set_read_timeout(Some(Duration::from_millis(100)));
+        if stream.write_all(format!("u8:{:x}:5c\n", FLAG).as_bytes()).is_err() {
+            return Err(format!("{}the control connection broke during the handshake", INFRA));
+        }
+        let t0 = Instant::now();
+        let mut got: Vec<u8> = vec![];
+        let mut buf = [0u8; 512];
+        loop {
+            match stream.read(&mut buf) {
+                Ok(0) => return Err(format!("{}the peer closed the control connection during the handshake", INFRA)),
+                Ok(n) => got.extend_from_slice(&buf[..n]),
+                Err(ref e) if e.kind() == std::io::ErrorKind::WouldBlock || e.kind() == std::io::ErrorKind::TimedOut => {}
+                Err(e) => return Err(format!("{}handshake read: {}", INFRA, e)),
+            }
+            if got.windows(12).any(|w| w == b"ioport:b:5c:") {
+                break;
+            }
+            if t0.elapsed() > Duration::from_secs(20) {
+                // not our emulator (or not an emulator at all): leave the thread behind, it ends with the process
+                return Err(format!("{}no echo of the handshake within 20 s: the connection on port {} does not lead to this case's emulator", INFRA, port));
+            }
+        }
+        m.apply(&format!("u8:{:x}:5c", FLAG));
+    }
     let mut bytes: Vec<u8> = vec![];
     for l in lines {
         bytes.extend(wire_bytes(l));
